@@ -1687,3 +1687,39 @@ def m_copied(I, st, args, dty, site):
 @model('<std::option::Option<T> as std::cmp::PartialEq>::eq')
 def m_opt_eq(I, st, args, dty, site):
     return [(st, I.top(st, {'k': 'bool'}, 'eq'))]
+
+
+@model_if(lambda n: n.startswith('core::num::<impl ') and (n.endswith('::saturating_add') or n.endswith('::saturating_sub')))
+def m_saturating(I, st, args, dty, site):
+    a, b = args[0], args[1]
+    if not (_intarg(a) and _intarg(b)):
+        return None
+    op = 'Add' if site['callee'].endswith('add') else 'Sub'
+    tn = a[2]
+    tr = range_of_name(tn)
+    ia, ib = D.get_iv(st, a[1]), D.get_iv(st, b[1])
+    r = D.iv_add(ia, ib) if op == 'Add' else D.iv_sub(ia, ib)
+    outs = []
+    if r[1] >= tr[0] and r[0] <= tr[1]:
+        s1 = st.clone()
+        tup = I.binop(s1, op + 'WithOverflow', a, b, {'k': 'tuple', 'elems': [ty_of_name(tn), {'k': 'bool'}]}, None, None)
+        if not s1.dead:
+            outs.append((s1, tup[1][0]))
+    def refined(over):
+        s2 = st.clone()
+        # refine the non-constant operand on the saturating branch: a + b > MAX  /  a + b < MIN
+        if ib[0] == ib[1]:
+            c = ib[0] if op == 'Add' else -ib[0]
+            okr = D.set_iv(s2, a[1], tr[1] - c + 1, INF) if over else D.set_iv(s2, a[1], -INF, tr[0] - c - 1)
+            if not okr:
+                return None
+        return s2
+    if r[1] > tr[1]:
+        s2 = refined(True)
+        if s2 is not None:
+            outs.append((s2, const_int(tr[1], tn)))
+    if r[0] < tr[0]:
+        s3 = refined(False)
+        if s3 is not None:
+            outs.append((s3, const_int(tr[0], tn)))
+    return outs
